@@ -227,7 +227,8 @@ def cases(ctx):
     # every entry of the function table of the tree under test (whatever it is) applied to full and nearly full host containers: nothing reachable from
     # names may be longer than the bound afterwards
     from smartquery import functions as _functions
-    for name in sorted(_functions.FUNCTIONS):
+    from lib import gram as _gram
+    for name in sorted(set(_functions.FUNCTIONS) | set(_gram.table_names())):
         for args in ('L, 1', 'L, 0, 1', 'L, [1]', 'L, 1, 2, 3', 'L, L', 'Dd, "zz", 1', 'Dd, "zz"', 'Dd, {"zz": 1, "zy": 2}', 'Dd, Dd', 'Dd, "zz", [1]', 'L, v => v', 'Dd, (k, v) => v'):
             for size in (9999, 10000):
                 if n % ctx.nshards == ctx.shard:
